@@ -225,8 +225,21 @@ func (fe FilterEncoder) AddArray(key string, marshaler zapcore.ArrayMarshaler) e
 
 // AddObject is part of the zapcore.ObjectEncoder interface.
 func (fe FilterEncoder) AddObject(key string, marshaler zapcore.ObjectMarshaler) error {
-	if fe.filtered(key, marshaler) {
-		return nil
+	if filter, ok := fe.Fields[fe.keyPrefix+key]; ok {
+		field := filter.Filter(zap.Object(key, marshaler))
+		kept, isObject := field.Interface.(zapcore.ObjectMarshaler)
+		if field.Type != zapcore.ObjectMarshalerType || !isObject {
+			field.AddTo(fe.wrapped)
+			return nil
+		}
+		// the filter kept the object (it renamed it, or does not
+		// apply to objects): the fields inside it are still
+		// subject to the filters configured for them
+		fe.keyPrefix += key + ">"
+		return fe.wrapped.AddObject(field.Key, logObjectMarshalerWrapper{
+			enc:   fe,
+			marsh: kept,
+		})
 	}
 	fe.keyPrefix += key + ">"
 	return fe.wrapped.AddObject(key, logObjectMarshalerWrapper{
